@@ -17,54 +17,6 @@ type Case struct {
 	Config string  `json:"config"` // how B was placed relative to A (generator label)
 }
 
-type placed struct {
-	g      vkit.GJ
-	cx, cy float64 // centre of first member
-	R      float64
-	rin    float64      // inradius of first member's shell
-	holes  [][3]float64 // holes of first member
-}
-
-func genShape(t *rapid.T, kind string, cx, cy, R float64, snap bool) placed {
-	p := placed{cx: cx, cy: cy, R: R}
-	switch kind {
-	case "Bounds":
-		hw, hh := R*rapid.Float64Range(0.2, 1).Draw(t, "hw"), R*rapid.Float64Range(0.2, 1).Draw(t, "hh")
-		p.g = vkit.GJ{T: "Bounds", Pts: []vkit.P2{vkit.MkP(cx-hw, cy-hh), vkit.MkP(cx+hw, cy+hh)}}
-		p.rin = math.Min(hw, hh)
-		if snap {
-			vkit.Snap([][]vkit.P2{p.g.Pts}, 1.0/1024)
-		}
-	case "Polygon", "MultiPolygon":
-		nm := 1
-		if kind == "MultiPolygon" {
-			nm = rapid.IntRange(1, 3).Draw(t, "nmembers")
-		}
-		var polys [][][]vkit.P2
-		for m := 0; m < nm; m++ {
-			mcx := cx + float64(m)*2.5*R
-			rings, holes := vkit.StarPolygon(t, mcx, cy, R, 3)
-			if m == 0 {
-				p.rin = vkit.Inradius(rings[0], cx, cy)
-				p.holes = holes
-			}
-			if snap {
-				vkit.Snap(rings, 1.0/1024)
-			}
-			for i := range rings {
-				rings[i] = vkit.Respell(t, rings[i])
-			}
-			polys = append(polys, rings)
-		}
-		if kind == "Polygon" {
-			p.g = vkit.GJ{T: "Polygon", Rings: polys[0]}
-		} else {
-			p.g = vkit.GJ{T: "MultiPolygon", Polys: polys}
-		}
-	}
-	return p
-}
-
 var kinds = []string{"Polygon", "MultiPolygon", "Bounds"}
 
 func gen(t *rapid.T) Case {
@@ -74,47 +26,47 @@ func gen(t *rapid.T) Case {
 	snap := rapid.IntRange(0, 3).Draw(t, "snap") == 0
 	R := rapid.SampledFrom([]float64{1, 10, 100}).Draw(t, "R")
 	ox := rapid.SampledFrom([]float64{0, 0, 1000, -50}).Draw(t, "ox")
-	A := genShape(t, ka, ox, ox/2, R, snap)
-	c.A = A.g
+	A := vkit.GenPolygonal(t, ka, ox, ox/2, R, snap)
+	c.A = A.G
 	c.Config = rapid.SampledFrom([]string{"overlap", "overlap", "overlap", "nested", "inhole", "diagonal", "bboxdisjoint", "far"}).Draw(t, "config")
 	ang := rapid.Float64Range(0, 2*math.Pi).Draw(t, "ang")
 	var bx, by, RB float64
 	switch c.Config {
 	case "overlap":
 		d := R * rapid.Float64Range(0, 1.3).Draw(t, "d")
-		bx, by = A.cx+d*math.Cos(ang), A.cy+d*math.Sin(ang)
+		bx, by = A.Cx+d*math.Cos(ang), A.Cy+d*math.Sin(ang)
 		RB = R * rapid.Float64Range(0.3, 1.5).Draw(t, "RB")
 	case "nested":
-		d := A.rin * rapid.Float64Range(0, 0.6).Draw(t, "d")
-		bx, by = A.cx+d*math.Cos(ang), A.cy+d*math.Sin(ang)
-		RB = A.rin * rapid.Float64Range(0.05, 0.35).Draw(t, "RB")
+		d := A.Rin * rapid.Float64Range(0, 0.6).Draw(t, "d")
+		bx, by = A.Cx+d*math.Cos(ang), A.Cy+d*math.Sin(ang)
+		RB = A.Rin * rapid.Float64Range(0.05, 0.35).Draw(t, "RB")
 	case "inhole":
-		if len(A.holes) > 0 {
-			h := A.holes[rapid.IntRange(0, len(A.holes)-1).Draw(t, "hole")]
+		if len(A.Holes) > 0 {
+			h := A.Holes[rapid.IntRange(0, len(A.Holes)-1).Draw(t, "hole")]
 			bx, by = h[0], h[1]
 			RB = h[2] * 0.5 * rapid.Float64Range(0.2, 0.6).Draw(t, "RB") // hole radii >= 0.5*h[2]; gaps<pi keep an inscribed disc
 			RB *= 0.3
 		} else {
-			bx, by = A.cx, A.cy
-			RB = A.rin * 0.3
+			bx, by = A.Cx, A.Cy
+			RB = A.Rin * 0.3
 		}
 	case "diagonal":
 		s := rapid.SampledFrom([]float64{1, -1}).Draw(t, "sx")
 		s2 := rapid.SampledFrom([]float64{1, -1}).Draw(t, "sy")
 		RB = R * rapid.Float64Range(0.5, 1.1).Draw(t, "RB")
 		f := rapid.Float64Range(1.5, 1.7).Draw(t, "f")
-		bx, by = A.cx+s*f*R, A.cy+s2*f*R
+		bx, by = A.Cx+s*f*R, A.Cy+s2*f*R
 	case "bboxdisjoint":
 		RB = R * rapid.Float64Range(0.3, 1).Draw(t, "RB")
-		bx, by = A.cx-(R+RB)*rapid.Float64Range(1.05, 2).Draw(t, "f"), A.cy+R*rapid.Float64Range(-2, 2).Draw(t, "dy")
+		bx, by = A.Cx-(R+RB)*rapid.Float64Range(1.05, 2).Draw(t, "f"), A.Cy+R*rapid.Float64Range(-2, 2).Draw(t, "dy")
 		if rapid.Bool().Draw(t, "vertical") {
-			bx, by = A.cx+R*rapid.Float64Range(-1, 1).Draw(t, "dx"), A.cy+(R+RB)*rapid.Float64Range(1.05, 2).Draw(t, "f2")
+			bx, by = A.Cx+R*rapid.Float64Range(-1, 1).Draw(t, "dx"), A.Cy+(R+RB)*rapid.Float64Range(1.05, 2).Draw(t, "f2")
 		}
 	case "far":
 		RB = R * rapid.Float64Range(0.3, 1).Draw(t, "RB")
-		bx, by = A.cx+1000*R*math.Cos(ang), A.cy+1000*R*math.Sin(ang)
+		bx, by = A.Cx+1000*R*math.Cos(ang), A.Cy+1000*R*math.Sin(ang)
 	}
-	c.B = genShape(t, kb, bx, by, RB, snap).g
+	c.B = vkit.GenPolygonal(t, kb, bx, by, RB, snap).G
 	return c
 }
 
@@ -389,7 +341,10 @@ func run(c Case) (v vkit.Verdict) {
 		all := append(append(append([]vkit.Edge{}, ea...), eb...), er...)
 		var bad, expected float64
 		var wx, wy, warea float64
-		type tp struct{ x, y float64; want bool }
+		type tp struct {
+			x, y float64
+			want bool
+		}
 		var pts []tp
 		vkit.SlabSweep(all, func(mask uint, area, cx, cy float64) {
 			want := opTruth(op, mask&1 != 0, mask&2 != 0)
